@@ -23,6 +23,11 @@ const (
 )
 
 const (
+	// SharesBeforeModifiedKey keeps the shares recorded by BeforeDelegationSharesModified until the next staking hook consumes them
+	SharesBeforeModifiedKey = "SharesBeforeModified/value/"
+)
+
+const (
 	FishingRewardKey = "FishingReward/value/"
 	InsuranceKey     = "Insurance"
 )
